@@ -49,6 +49,13 @@ pub fn strategy() -> impl Strategy<Value = Case> {
 }
 
 fn install(vars: &[Option<String>]) {
+    // bystanders in the environment that are not valid Unicode (legal on Unix): nobody refers to them, and their
+    // presence must not matter to the expansion of anything else
+    {
+        use std::os::unix::ffi::OsStrExt;
+        std::env::set_var("LV_NOT_UNICODE_VALUE", std::ffi::OsStr::from_bytes(b"caf\xe9/\xff"));
+        std::env::set_var(std::ffi::OsStr::from_bytes(b"LV_N\xffT_UNICODE_NAME"), "x");
+    }
     for (i, n) in NAMES.iter().enumerate() {
         match vars.get(i).cloned().flatten() {
             Some(v) => std::env::set_var(n, v),
@@ -173,7 +180,7 @@ pub fn check_e2e(tmp: &Path, case: &Case, obs: &mut Obs) -> CaseResult {
         obs.class("not-filesystem-safe(skipped)");
         return Ok(());
     }
-    for which in 0..9 {
+    for which in 0..10 {
         let root = scratch(tmp, "c19");
         let given = format!("{}/{}", root.display(), case.path);
         if which == 3 || which == 4 {
@@ -208,6 +215,19 @@ pub fn check_e2e(tmp: &Path, case: &Case, obs: &mut Obs) -> CaseResult {
                         roller.roll(&src).map_err(|e| e.to_string())?;
                     }
                 }
+                9 => {
+                    // one roller, two rolls, and between them every variable of the pool gets another value: the second
+                    // roll goes where the pattern leads NOW
+                    let roller = FixedWindowRoller::builder().build(&format!("{}.{{}}", given), 2).map_err(|e| e.to_string())?;
+                    let src = root.join("rolled-src");
+                    std::fs::write(&src, b"roll 0").map_err(|e| e.to_string())?;
+                    roller.roll(&src).map_err(|e| e.to_string())?;
+                    install(&vec![Some("chg".to_string()); NAMES.len()]);
+                    std::fs::write(&src, b"roll 1").map_err(|e| e.to_string())?;
+                    let r = roller.roll(&src).map_err(|e| e.to_string());
+                    install(&case.vars);
+                    r?;
+                }
                 7 => {
                     // index in a directory component below the expanded path, window of 3, four rolls
                     let roller = FixedWindowRoller::builder().build(&format!("{}/{{}}/app.log", given), 3).map_err(|e| e.to_string())?;
@@ -240,7 +260,8 @@ pub fn check_e2e(tmp: &Path, case: &Case, obs: &mut Obs) -> CaseResult {
             }
             Ok(())
         });
-        let what = ["FileAppender", "RollingFileAppender", "FixedWindowRoller", "FileAppender(truncate mode)", "RollingFileAppender(truncate mode)", "kind: file (configuration file)", "kind: rolling_file (configuration file)", "FixedWindowRoller (index in a directory, 4 rolls)", "FixedWindowRoller (index before the path, 4 rolls)"][which];
+        let what = ["FileAppender", "RollingFileAppender", "FixedWindowRoller", "FileAppender(truncate mode)", "RollingFileAppender(truncate mode)", "kind: file (configuration file)", "kind: rolling_file (configuration file)", "FixedWindowRoller (index in a directory, 4 rolls)", "FixedWindowRoller (index before the path, 4 rolls)", "FixedWindowRoller (variables change between two rolls)"][which];
+        install(&case.vars);
         let res = match r {
             Err(p) => {
                 let _ = std::fs::remove_dir_all(&root);
@@ -260,6 +281,34 @@ pub fn check_e2e(tmp: &Path, case: &Case, obs: &mut Obs) -> CaseResult {
             want_rel.clone()
         };
         if !fs_safe(&want_file) {
+            continue;
+        }
+        if which == 9 {
+            let changed = Case { path: case.path.clone(), vars: vec![Some("chg".to_string()); NAMES.len()] };
+            let pat = format!("{}.{{}}", case.path);
+            let old = |i: usize| expand_ref(&pat.replace("{}", &i.to_string()), &|name: &str| lookup_var(case, name));
+            let new = |i: usize| expand_ref(&pat.replace("{}", &i.to_string()), &|name: &str| lookup_var(&changed, name));
+            if [old(0), old(1), new(0), new(1)].iter().any(|p| !fs_safe(p)) {
+                continue;
+            }
+            let mut want: std::collections::BTreeMap<String, Vec<u8>> = Default::default();
+            if collapse(&old(0)) == collapse(&new(0)) {
+                // nothing in the path depends on the environment: an ordinary shift
+                want.insert(collapse(&new(1)), b"roll 0".to_vec());
+                want.insert(collapse(&new(0)), b"roll 1".to_vec());
+            } else if collapse(&old(0)) == collapse(&new(1)) || collapse(&old(1)) == collapse(&new(0)) {
+                continue;
+            } else {
+                want.insert(collapse(&old(0)), b"roll 0".to_vec());
+                want.insert(collapse(&new(0)), b"roll 1".to_vec());
+            }
+            obs.sub_evals += 1;
+            ensure!(
+                s.files == want,
+                if s.files.keys().any(|f| f.contains("$ENV{") && !want.contains_key(f)) { "C19:not-expanded" } else { "C19:wrong-location" },
+                "{} given {:?}: after a roll, a change of every pool variable to \"chg\" and another roll the directory holds {:?}, expected {:?}", what, case.path, s.files.iter().map(|(k, v)| (k.clone(), String::from_utf8_lossy(v).to_string())).collect::<Vec<_>>(), want.iter().map(|(k, v)| (k.clone(), String::from_utf8_lossy(v).to_string())).collect::<Vec<_>>()
+            );
+            obs.class("variables-changed-between-two-rolls");
             continue;
         }
         if which == 7 || which == 8 {
